@@ -15,7 +15,8 @@ oracle address, window comparisons `maxHeight > set.Height` / half-open batch ra
 theorem slashing_code_facts : SlashCodeOk := by decide
 
 /-- `BondedOracle` checks proposal membership, existing record, bridger index, external index, lower and upper stake bound
-before any write; `EditBridger` checks the bridger index before any write -/
+before any write; `EditBridger` checks the bridger index before any write; `AddDelegate` checks proposal membership, that
+the top-up covers an outstanding penalty, and both stake bounds before any write -/
 theorem guard_code_facts : GuardCodeOk := by decide
 
 /-- governance removal: 30 % power-change cap of the expected shape, list length bounded by `MaxOracleSize` -/
@@ -75,7 +76,9 @@ theorem bond_requires_approval_and_bounds (s : State) (o b e v amt : Nat) (h : (
 /-- topping up (and coming back online) also needs governance approval -/
 theorem add_requires_approval (s : State) (o amt : Nat) (h : (addDelegate s o amt).2 = .ok) :
     s.proposal.contains o = true := by
+  have a1 : addChecksProposal = true := guard_code_facts.2.2.2.2.2.2.2.1
   unfold addDelegate at h
+  simp only [a1, Bool.true_and] at h
   split at h
   · cases h
   · rename_i h1; simpa using h1
